@@ -103,7 +103,7 @@ class C10(Prop):
     rule = ("case = one parameter tuple of one family: all x-functions on a grid of arguments (support edge, every branch threshold +-2 ulp, "
             "log-spaced tails, random draws), inverse functions on a p-grid (incl. eslSMALLX1 +-1 ulp), round trips, derivative triples, samples; "
             "non-trivial = every op answered and at least one finite value other than 0/1; distinct by output trace")
-    diverge_is_violation = True     # every op is a deterministic function; the model IS the translated source
+    diverge_is_violation = True     # every op is a deterministic function; the model IS the translated source (see compare)
     quick_budget_s = 90
     thorough_budget_s = 900
 
@@ -116,21 +116,48 @@ class C10(Prop):
         return {"EaselModel/Generated/Dist.lean": text,
                 "EaselModel/Generated/ErfcCoef.lean": c2lean.erfc_coefficients(ctx.src)}
 
+    # Kind-T functions over the elementary operations only (exp, gumbel, gev, wei, lognormal) are compared bit-for-bit: the
+    # model is regenerated from the source, so any difference is a translator/semantics error.  Operations that go through a
+    # HAND model (esl_stats_LogGamma / IncompleteGamma / erfc, the mixture loops, esl_vec_DLogSum) are compared numerically:
+    # a harmless re-implementation of those algorithms (other series cut-off, summation order, libm erfc) must not alarm,
+    # and anything larger is far above these bounds (and is also judged by the closed-form monitors).
+    H_TOL = {"sxp": (1e-5, 1e-12), "gam": (1e-5, 1e-12), "normal": (1e-11, 0.0), "hxp": (1e-11, 1e-15), "mixgev": (1e-11, 1e-15),
+             "esl_stats_LogGamma": (1e-9, 1e-8), "esl_stats_IncGammaP": (1e-5, 1e-12), "esl_stats_IncGammaQ": (1e-5, 1e-12),
+             "esl_stats_erfc": (1e-11, 0.0)}
+
+    @staticmethod
+    def close(a, b, rel, ab):
+        if a == b or (a != a and b != b):
+            return True
+        if math.isinf(a) or math.isinf(b) or a != a or b != b:
+            return (abs(a) > 1e300 and abs(b) > 1e300 and (a > 0) == (b > 0))
+        return abs(a - b) <= rel * max(abs(a), abs(b)) + ab + 1e-305
+
     def compare(self, ctx, case, impl_out, model_out):
-        """bit-exact, except that operations on functions outside the translated set are monitor-only: the driver answers
-           `unmodelled` there.  A function that IS in the translated set must be answered by the model."""
+        """see H_TOL; operations on functions outside the modelled set are monitor-only (the driver answers `unmodelled`),
+           but a function that IS in the translated set must be answered by the model."""
         must = set(getattr(self, "tinfo", {}).get("functions", []))
         n = max(len(impl_out), len(model_out))
         for i in range(n):
             a = impl_out[i] if i < len(impl_out) else "<missing>"
             b = model_out[i] if i < len(model_out) else "<missing>"
-            if b == "unmodelled" and i < len(case["ops"]):
-                kind, kv, _ = parse_op(case["ops"][i])
-                fns = kv.get("fn", "").split(",")
+            if a == b:
+                continue
+            kind, kv, _ = parse_op(case["ops"][i]) if i < len(case["ops"]) else ("", {}, [])
+            fns = kv.get("fn", "").split(",")
+            if b == "unmodelled":
                 if (kind == "mix" and kv.get("fn") == "invcdf") or (kind in ("f", "f2") and not any(f in must for f in fns)):
                     continue
-            if a != b:
-                return (i, a, b)
+            tol = None
+            if kind == "mix":
+                tol = self.H_TOL.get(kv.get("fam"))
+            elif kind in ("f", "f2"):
+                tol = self.H_TOL.get(fns[0]) or self.H_TOL.get(R.split_fn(fns[0])[0])
+            va, vb = parse_out(a), parse_out(b)
+            if tol and va is not None and vb is not None and len(va) == len(vb) and all(self.close(x, y, *tol) for x, y in zip(va, vb)):
+                self.__dict__.setdefault("hdrift", [0])[0] += 1
+                continue
+            return (i, a, b)
         return None
 
     # ------------------------------------------------------------------------------------------
@@ -619,6 +646,7 @@ class C10(Prop):
                 "not_covered": ["esl_sxp_Sample, esl_gam_Sample, esl_lognormal_Sample (esl_rnd_Gamma / esl_rnd_Gaussian not modelled)",
                                 "generic_* wrappers (one-line forwards)", "esl_stats_Psi / Trigamma (used by the fitting code, C11)"],
                 "literals_from_source_text": getattr(self, "tinfo", {}).get("literals", []),
+                "hand_model_ops_equal_within_tolerance_but_not_bitwise": getattr(self, "hdrift", [0])[0],
                 "input_distribution": {"ops_by_function": st["ops"], "returned_values": st["values"]}}
 
 
